@@ -46,6 +46,7 @@ void SimulateMips::reset()
   lo = 0;
   ra_was_set = false;
   force_break = false;
+  in_delay_slot = false;
 
   // FIXME: Should this be org?
   pc = memory->low_address;
@@ -260,11 +261,18 @@ int32_t SimulateMips::get_offset16(uint32_t opcode)
 
 int SimulateMips::delay_slot()
 {
+  // A branch in the delay slot of a branch is UNPREDICTABLE on MIPS: its
+  // own delay slot is not executed, so a run of branches cannot nest
+  // execute() without bound.
+  if (in_delay_slot) { return 0; }
+
   uint32_t old_pc = pc;
 
+  in_delay_slot = true;
   pc += 4;
   execute();
   pc = old_pc;
+  in_delay_slot = false;
 
   return 0;
 }
